@@ -420,20 +420,28 @@ impl GraphEngine {
         edge_type: Option<&str>,
         direction: Direction,
     ) -> (f64, u64) {
-        let edges_key = match direction {
-            Direction::Outgoing | Direction::Both => Self::outgoing_edges_key(from),
-            Direction::Incoming => Self::incoming_edges_key(from),
-        };
+        // Scan the list(s) that can hold an edge usable for the step `from` -> `to` in this
+        // direction and keep the lightest one (parallel edges).
+        let mut edge_ids = Vec::new();
+        if direction == Direction::Outgoing || direction == Direction::Both {
+            edge_ids.extend(self.get_edge_list(&Self::outgoing_edges_key(from)));
+        }
+        if direction == Direction::Incoming || direction == Direction::Both {
+            edge_ids.extend(self.get_edge_list(&Self::incoming_edges_key(from)));
+        }
 
-        for edge_id in self.get_edge_list(&edges_key) {
+        let mut best: Option<(f64, u64)> = None;
+        for edge_id in edge_ids {
             let Ok(edge) = self.get_edge(edge_id) else {
                 continue;
             };
 
+            let forward = edge.from == from && edge.to == to;
+            let backward = edge.to == from && edge.from == to;
             let connects = match direction {
-                Direction::Outgoing => edge.to == to,
-                Direction::Incoming => edge.from == to,
-                Direction::Both => edge.to == to || edge.from == to,
+                Direction::Outgoing => forward || (!edge.directed && backward),
+                Direction::Incoming => backward || (!edge.directed && forward),
+                Direction::Both => forward || backward,
             };
 
             if !connects {
@@ -455,7 +463,14 @@ impl GraphEngine {
                 None => default_weight,
             };
 
-            return (weight, edge_id);
+            match best {
+                Some((w, _)) if w <= weight => {},
+                _ => best = Some((weight, edge_id)),
+            }
+        }
+
+        if let Some(found) = best {
+            return found;
         }
 
         (default_weight, 0)
